@@ -180,7 +180,7 @@ def probes(V):
         Reg = pulser.Register if dim == 2 else pulser.Register3D
         for off in (3e-6, 5e-5, 2e-4):
             tests += 1
-            ids = [1, n - 1]
+            ids = [n - 1, 1]         # the first one has large coordinates: a relative tolerance would swallow the offset
             q = {f"a{k}": sc[t] + (off if k == 0 else 0.0) * np.eye(dim)[0] for k, t in enumerate(ids)}
             try:
                 reg = Reg(q, layout=lay, trap_ids=ids)
